@@ -60,6 +60,7 @@ type T struct {
 	gid     uint64
 	daemon  bool
 	dying   bool // woken (or running) to unwind after the execution ended
+	vc      vclock
 }
 
 // Decision is one recorded choice of an execution.
@@ -122,6 +123,13 @@ type Sched struct {
 	prefix    []int
 	Decisions []Decision
 
+	// happens-before race detection (race.go)
+	RaceOn  bool
+	Races   []Race
+	syncs   map[uintptr]vclock
+	shadow  map[uintptr]*shadow
+	inTimer *Timer
+
 	live     sync.WaitGroup
 	now      time.Time
 	timers   []*Timer
@@ -179,6 +187,7 @@ type Opts struct {
 	MaxSteps    int
 	KeepTrace   bool
 	KeepChanLog bool
+	Race        bool // happens-before data-race detection on instrumented accesses
 }
 
 // WatchdogTimeout is the wall-clock time after which an execution that does
@@ -193,10 +202,13 @@ func Run(prefix []int, o Opts, body func()) *Sched {
 	if o.MaxSteps == 0 {
 		o.MaxSteps = 20000
 	}
-	s := &Sched{closed: map[uintptr]bool{}, finished: make(chan struct{}), prefix: prefix, MaxSteps: o.MaxSteps, now: Epoch, KeepTrace: o.KeepTrace, KeepChanLog: o.KeepChanLog, chanIDs: map[uintptr]int{}}
+	s := &Sched{closed: map[uintptr]bool{}, finished: make(chan struct{}), prefix: prefix, MaxSteps: o.MaxSteps, now: Epoch, KeepTrace: o.KeepTrace, KeepChanLog: o.KeepChanLog, chanIDs: map[uintptr]int{},
+		RaceOn: o.Race}
+	s.raceInit()
 	S = s
 	s.active = true
 	t := s.newThread("main")
+	s.hbInitThread(nil, t)
 	s.cur = t
 	t.started = true
 	s.live.Add(1)
@@ -280,6 +292,7 @@ func goNamed(name string, fn func(), daemon bool) {
 	}
 	t := s.newThread(name)
 	t.daemon = daemon
+	s.hbInitThread(c, t)
 	s.mu.Unlock()
 	s.live.Add(1)
 	go func() {
@@ -294,7 +307,7 @@ func goNamed(name string, fn func(), daemon bool) {
 		}
 		fn()
 	}()
-	Point("go")
+	PointS("go")
 }
 
 func (s *Sched) threadExit(t *T) {
@@ -641,11 +654,26 @@ func (s *Sched) dispatchLocked(next *T) {
 			}
 		}
 	}
+	if s.RaceOn {
+		switch p.kind {
+		case opSend, opRecv:
+			s.acqRelT(next, chanPtr(p.ch))
+		case opSelect:
+			if next.sel >= 0 {
+				s.acqRelT(next, chanPtr(p.cases[next.sel].ch))
+			}
+		}
+	}
 	next.pend = nil
 	if needPartner {
 		o, idx := s.partnerFor(next, relCh, relSend)
 		if o == nil {
 			panic("vsched: no partner for rendezvous")
+		}
+		if s.RaceOn {
+			// unbuffered rendezvous: edges in both directions
+			s.acqRelT(o, chanPtr(relCh))
+			s.acqRelT(next, chanPtr(relCh))
 		}
 		if o.pend.kind == opSelect {
 			o.sel = idx
@@ -740,8 +768,21 @@ func (s *Sched) afterOp(t *T) {
 	}
 }
 
-// Point is a scheduling point before a non-blocking visible operation.
+// Point is a scheduling point before a non-blocking visible operation of harness code. For the
+// happens-before relation every harness-level Point/Cond is an acquire+release on one global object
+// (harness objects synchronise for real in a free-running test); the shims use PointS/CondS and account
+// for their own objects.
 func Point(what string) {
+	t := cur()
+	if t == nil || S.killing {
+		return
+	}
+	S.yield(t, &pending{kind: opPoint, what: what})
+	AcqRel(harnessKey)
+}
+
+// PointS is Point without any happens-before edge.
+func PointS(what string) {
 	t := cur()
 	if t == nil || S.killing {
 		return
@@ -753,6 +794,19 @@ func Point(what string) {
 // while no managed thread runs). When the execution is being torn down it
 // terminates the calling goroutine.
 func Cond(what string, ready func() bool) {
+	t := cur()
+	if t == nil {
+		panic("vsched.Cond outside an exploration")
+	}
+	if S.killing {
+		runtime.Goexit()
+	}
+	S.yield(t, &pending{kind: opCond, ready: ready, what: what})
+	AcqRel(harnessKey)
+}
+
+// CondS is Cond without any happens-before edge (shims).
+func CondS(what string, ready func() bool) {
 	t := cur()
 	if t == nil {
 		panic("vsched.Cond outside an exploration")
@@ -776,6 +830,11 @@ func Quiesce() {
 		runtime.Goexit()
 	}
 	S.yield(t, &pending{kind: opQuiesce, what: "quiesce"})
+	if s := hbOn(); s != nil {
+		s.mu.Lock()
+		s.acquireAllLocked(t)
+		s.mu.Unlock()
+	}
 }
 
 // Send is an instrumented channel send; op performs the real send.
@@ -841,6 +900,9 @@ func CloseCh[E any](c chan E) {
 	S.mu.Lock()
 	S.closed[chanPtr(reflect.ValueOf(c))] = true
 	S.keep = append(S.keep, reflect.ValueOf(c))
+	if S.RaceOn {
+		S.release(chanPtr(reflect.ValueOf(c)))
+	}
 	S.mu.Unlock()
 	close(c)
 }
@@ -854,6 +916,9 @@ func MarkClosed(c any) {
 	s.mu.Lock()
 	s.closed[chanPtr(reflect.ValueOf(c))] = true
 	s.keep = append(s.keep, reflect.ValueOf(c))
+	if s.RaceOn && !s.killing {
+		s.release(chanPtr(reflect.ValueOf(c)))
+	}
 	s.mu.Unlock()
 }
 
@@ -957,6 +1022,7 @@ type Timer struct {
 	info   *TimerInfo
 	s      *Sched
 	real   *time.Timer
+	vc     vclock
 }
 
 // Now is the virtual clock reading.
@@ -1025,6 +1091,14 @@ func newTimer(d time.Duration, period time.Duration, fn func()) *Timer {
 	t.info = &TimerInfo{Seq: t.seq, Creator: s.curNameLocked(), CreatedStep: s.Steps, CreatedAt: s.now.Sub(Epoch), Deadline: t.when.Sub(Epoch), FiredStep: -1}
 	s.TimerLog = append(s.TimerLog, t.info)
 	s.timers = append(s.timers, t)
+	if s.RaceOn {
+		// arming a timer happens before its firing
+		_, vc := s.srcClock()
+		t.vc = append(vclock(nil), vc...)
+		if s.inTimer == nil && s.cur != nil {
+			s.tick(s.cur)
+		}
+	}
 	return t
 }
 
@@ -1066,7 +1140,7 @@ func (t *Timer) Stop() bool {
 	if t.real != nil {
 		return t.real.Stop()
 	}
-	Point("timer.stop")
+	PointS("timer.stop")
 	t.s.mu.Lock()
 	defer t.s.mu.Unlock()
 	was := t.armed
@@ -1079,11 +1153,15 @@ func (t *Timer) Reset(d time.Duration) bool {
 	if t.real != nil {
 		return t.real.Reset(d)
 	}
-	Point("timer.reset")
+	PointS("timer.reset")
 	t.s.mu.Lock()
 	defer t.s.mu.Unlock()
 	was := t.armed
 	t.armed = true
+	if t.s.RaceOn && t.s.cur != nil && t.s.inTimer == nil {
+		t.vc = joinInto(t.vc, t.s.cur.vc)
+		t.s.tick(t.s.cur)
+	}
 	t.when = t.s.now.Add(d)
 	if t.period > 0 {
 		t.period = d
@@ -1135,13 +1213,19 @@ func (s *Sched) fireTimerLocked(t *Timer) {
 	if t.inline != nil {
 		// runs with the scheduler lock released-equivalent state: inline
 		// functions only touch context state and MarkClosed (which locks).
+		s.inTimer = t
 		s.mu.Unlock()
 		t.inline()
 		s.mu.Lock()
+		s.inTimer = nil
 		return
 	}
 	if t.fn != nil {
 		nt := s.newThread(fmt.Sprintf("afterfunc%d", t.seq))
+		if s.RaceOn {
+			nt.vc = append(vclock(nil), t.vc...)
+			s.tick(nt)
+		}
 		fn := t.fn
 		s.live.Add(1)
 		go func() {
@@ -1157,6 +1241,10 @@ func (s *Sched) fireTimerLocked(t *Timer) {
 			fn()
 		}()
 		return
+	}
+	if s.RaceOn {
+		k := chanPtr(reflect.ValueOf(t.C))
+		s.syncs[k] = joinInto(s.syncs[k], t.vc)
 	}
 	select {
 	case t.C <- s.now:
